@@ -1186,6 +1186,24 @@ func (vc *FuncVC) defaultExternal(cl *callee) bool {
 	if strings.HasPrefix(pkgPath, modPrefix) {
 		return false
 	}
+	// an external function handed a value of this repository through an interface with methods (sort.Sort(this),
+	// io.Copy(w, r), ...) or a pointer to one of its structs can call back into the repository and mutate it: no
+	// default contract for those, the call needs a written one
+	for _, a := range cl.args {
+		if a.GoT == nil {
+			continue
+		}
+		switch t := a.GoT.Underlying().(type) {
+		case *types.Interface:
+			if t.NumMethods() > 0 && !harmlessIface(a.GoT) && vc.mayHoldRepoValue(a) {
+				return false
+			}
+		case *types.Pointer:
+			if n, ok := t.Elem().(*types.Named); ok && n.Obj().Pkg() != nil && strings.HasPrefix(n.Obj().Pkg().Path(), modPrefix) && isStruct(t.Elem()) {
+				return false
+			}
+		}
+	}
 	if recv != "" {
 		base := strings.TrimPrefix(recv, "*")
 		for k := range vc.eng.specs.Contracts {
@@ -1195,4 +1213,34 @@ func (vc *FuncVC) defaultExternal(cl *callee) bool {
 		}
 	}
 	return true
+}
+
+
+// harmlessIface: interface types whose methods only read (listed assumption of the default external contract).
+func harmlessIface(t types.Type) bool {
+	switch types.TypeString(t, nil) {
+	case "error", "context.Context", "fmt.Stringer":
+		return true
+	}
+	return false
+}
+
+// mayHoldRepoValue: the interface value was made from a value of a type of this repository (statically known
+// conversion), or nothing is known about it and its static type is declared outside the repository.
+func (vc *FuncVC) mayHoldRepoValue(a Term) bool {
+	if m := mkILit.FindStringSubmatch(a.S); m != nil {
+		var tag int
+		fmt.Sscanf(m[1], "%d", &tag)
+		if tag >= 1 && tag <= len(vc.ss.tagTypes) {
+			t := vc.ss.tagTypes[tag-1]
+			if p, ok := t.(*types.Pointer); ok {
+				t = p.Elem()
+			}
+			if n, ok := t.(*types.Named); ok && n.Obj().Pkg() != nil {
+				return strings.HasPrefix(n.Obj().Pkg().Path(), modPrefix)
+			}
+			return false
+		}
+	}
+	return false
 }
